@@ -97,6 +97,10 @@ pub struct World {
     pub log_hash: vh_common::Hasher,
     /// systematic enumeration of callback outcomes for one task (C04)
     pub dfs: Option<Dfs>,
+    /// probability (per cent) that the wrapper conversion at the end of get() panics
+    pub p_wrap_panic: u32,
+    /// object that went back to the pool because the wrapper conversion panicked
+    pub wrap_returned: Option<u32>,
 }
 
 /// Depth-first enumeration state: the decisions of `task` follow `prefix`,
@@ -148,6 +152,8 @@ impl World {
             teardown: false,
             log_hash: Default::default(),
             dfs: None,
+            p_wrap_panic: 0,
+            wrap_returned: None,
         }
     }
 
@@ -601,6 +607,30 @@ impl World {
         let id = (self.objs.len() - 1) as u32;
         self.ev(format!("  + obj{} constructed (task {})", id, task));
         id
+    }
+
+    /// `W::from(Object)` is about to run for `id`. Returns Some(n) if the conversion shall panic.
+    pub fn begin_wrap(&mut self, id: u32, m: &Metrics) -> Option<u32> {
+        let t = match self.op {
+            Op::Poll(t) => t,
+            _ => return None,
+        };
+        if self.probe_mode || self.dfs.is_some() || self.p_wrap_panic == 0 || (self.rng.below(100) as u32) >= self.p_wrap_panic {
+            return None;
+        }
+        self.next_err += 1;
+        let n = self.next_err;
+        self.ev(format!("  cb t{} wrap obj{} -> panic#{}", t, id, n));
+        self.bump("outcome:wrap:panic");
+        self.tasks[t].last_fail = Some((CallKind::Wrap, Outcome::Panic(n)));
+        // the object was complete: unwinding drops the `Object`, i.e. returns it to the pool
+        let o = &mut self.objs[id as usize];
+        o.state = ObjState::Returning;
+        o.handouts += 1;
+        o.m_created = Some(m.created);
+        o.m_recycled = m.recycled;
+        self.wrap_returned = Some(id);
+        Some(n)
     }
 
     pub fn on_detach(&mut self, id: u32) {
